@@ -9,7 +9,7 @@ conf = {}
 for l in open(os.path.join(S, "_confirm.jsonl")):
     d = json.loads(l); conf[d["m"]] = d
 mat = {}
-for f in sorted(glob.glob(os.path.join(S, "_matrix*.jsonl"))):
+for f in [os.path.join(S, "_matrix_final.jsonl")] if os.path.exists(os.path.join(S, "_matrix_final.jsonl")) else sorted(glob.glob(os.path.join(S, "_matrix*.jsonl"))):
     for l in open(f):
         d = json.loads(l)
         if "check" in d:
@@ -69,6 +69,27 @@ with open(os.path.join(S, "README.md"), "w") as w:
             "| change | what it does | own property's check | neighbouring checks |\n|---|---|---|---|\n")
     for m, t, f, own, others in rows:
         w.write("| %s | %s (`%s`) | %s | %s |\n" % (m, t.replace("|", "/"), ", ".join(f), own, others))
+# ---- DESIGN.md section 10
+D = os.path.join(V, "DESIGN.md")
+d = open(D).read()
+own_ok = sum(1 for r in rows if r[3].startswith("detected"))
+tbl = ["| change | what it does | own check | other checks run on it |", "|---|---|---|---|"]
+for m, t, f, own, others in rows:
+    tbl.append("| %s | %s (`%s`) | %s | %s |" % (m, t.replace("|", "/"), ", ".join(x.replace("src/", "") for x in f), own, others))
+text = ("<!-- seeded:begin -->\n"
+        "%d seeded changes are kept under `/verif/seeded/<property>/<A-D>/` (`patch.diff`, `demonstration.rs`, `notes.md`,\n"
+        "`meta.json`). A and B come from a first round of fresh sub-agents, C and D from a second round that was told which\n"
+        "places round one had used; each agent saw only the property's text and a scratch worktree of `/repo`, never `/verif`.\n"
+        "I confirmed every one myself in a scratch worktree (`tools/confirm_seeded.sh`): the patch applies to `/repo`'s HEAD,\n"
+        "the whole baseline suite still passes with it, the demonstration fails with it and passes without it. The table is\n"
+        "generated from `tools/matrix.sh` (each change applied to `/repo`'s working tree, the listed checks run, the tree\n"
+        "restored): **%d of %d are detected by their own property's check** (quick tier, default seed).\n\n" % (len(rows), own_ok, len(rows))
+        + "\n".join(tbl) + "\n<!-- seeded:end -->")
+if "<!-- seeded:begin -->" in d:
+    d = d[:d.index("<!-- seeded:begin -->")] + text + d[d.index("<!-- seeded:end -->") + len("<!-- seeded:end -->"):]
+else:
+    d = d.replace("(SECTION10)", text)
+open(D, "w").write(d)
 print(len(rows), "seeded changes;", sum(1 for r in rows if r[3].startswith("detected")), "detected by their own property's check")
 for r in rows:
     if not r[3].startswith("detected"): print("NOT:", r[0], r[3])
